@@ -9,7 +9,14 @@ varies the sizes / positions relative to the running and to earlier batches; mod
 C18_once_no_aliasing for the slice-level queue); (2) join / restore requests carrying the member list Drummer really sends (the
 shard's current members) for replicas whose bootstrap record differs - membership changed since launch, launched with three
 members, joined - after StopReplica or after a restart of the whole NodeHost process on its disk (executor op RESTART, model
-step SRestart).  Scenarios that depend on real goroutine timing are re-executed once before anything is reported."""
+step SRestart).  Scenarios that depend on real goroutine timing are re-executed once before anything is reported.
+Round-3 dimensions: (3) SEVERAL Drummer servers with different views (executor ops DRUMMERS / DMODE / VER @d): the same hand made
+NodeHostInfo handed to SendNodeHostInfo for two servers in a row (gen_report_table2; every report truthful for the server it went
+to, the caller's value deep-equal before and after each call) and fail-over through the real node.go reportNodeHostInfo with servers
+that fail the index list call / fail the report call after the report arrived / accept (gen_failover; model report_round, theorems
+C18_failover_truthful / C18_failover_extent); (4) CREATE requests delivered AGAIN for replicas that have local data - created
+through the agent by join / launch, gone down by StopReplica or NodeHost restart, also a replica that really joined a shard led
+on a second NodeHost (templates redeliver-N, rejoin-2hosts-N, crash-launch-with-info-restart)."""
 import itertools, json, os, time
 from vlib import *
 
@@ -1444,7 +1451,12 @@ def run(ck):
                       "join / restore requests carry member lists (none / bootstrap record / current members after a membership change / "
                       "a replaced member) for replicas launched alone, launched with three members, or joined; deliveries that overlap a "
                       "running batch (HandleMasterRequests on its own goroutine, one shard blocked by a membership change without quorum; "
-                      "sizes of the overlapping deliveries relative to the running and to earlier batches). "
+                      "sizes of the overlapping deliveries relative to the running and to earlier batches); several Drummer servers with "
+                      "independent versions per shard: the same NodeHostInfo value sent to two servers in a row ((relation at A) x (relation "
+                      "at B) x pending per replica, exhaustive for 1 replica) with the argument deep-compared before/after, and fail-over "
+                      "rounds through node.go over 2..3 servers that fail the index list call / the report call / accept; join, launch and "
+                      "restore CREATE delivered again for replicas with local data after StopReplica / NodeHost restart, incl. a replica that "
+                      "joined a shard led on a second NodeHost. "
                       "A case = one report or one scenario; non-trivial unless nothing is hosted / no request.")
     tm = {}
     t_ = time.time()
